@@ -11,7 +11,8 @@ RULE = ("(1) classification: request/response shapes built around the AIP-4233 r
         "one case = one (request shape, response shape); non-trivial = the request has at least one of the paging field names. "
         "(2) pager behaviour: generated libraries (grpc / grpc+rest / rest) whose paged methods are called through the sync, "
         "asyncio and REST clients (iterating items or pages to the end, or leaving the loop early while holding page N>=2 / after j items, "
-        "with attributes read through the pager object at every yield and after the loop) against loopback servers answering from scripted page histories (1..5 pages up to the "
+        "with attributes read through the pager object at every yield and after the loop; plus multi-step sequences on a caller-owned request "
+        "object: mutate it after the pager was returned, drain and list again with the same object) against loopback servers answering from scripted page histories (1..5 pages up to the "
         "first empty token, page sizes 0..3, empty intermediate pages, unreachable pages after the empty token, initial "
         "page_token set or not, timeout/metadata/retry options); one case = one (library, method, client kind, history, mode); "
         "non-trivial = the history has at least two pages or at least one item. Distinct = distinct canonical JSON.")
@@ -986,6 +987,135 @@ def retry_scenario(r, D, info, m, kinds):
     return out
 
 
+def sequence_scenarios(r, D, info, m, kinds):
+    """Multi-step sequences in which the caller OWNS a request message object and the results span >= 2 pages:
+    'mutate': the caller changes its request object right after the pager was returned, then iterates;
+    'again':  the caller drains the pager, then calls the method again with the same request object.
+    The property: follow-up requests = the ORIGINAL request with only page_token replaced; hence the pager must not
+    share the caller's object, and the caller's object must not be modified by iteration."""
+    item = next(f for f in m["resp"] if f["repeated"])
+    attr_names = ["next_page_token"] + [f["name"] for f in m["resp"] if f["name"] in ("total_size", "etag")]
+    rq = D.new(m["req_fqn"].lstrip("."))
+    rq.parent = "projects/p1"
+    has = rq.DESCRIPTOR.fields_by_name
+    if "filter" in has:
+        rq.filter = "a=b"
+    if "order" in has:
+        rq.order = 3
+    if r.random() < 0.3:
+        rq.page_token = "start"
+    out = []
+    for seq in ("mutate", "again"):
+        n1 = r.randint(2, 4)
+        h1 = [fill_page(r, D, m, r.choice([1, 2, 0, 3]), "" if k == n1 - 1 else r.choice(TOKENS), k + 1) for k in range(n1)]
+        h2 = [fill_page(r, D, m, r.choice([1, 2]), "" if k == 1 else "again-" + r.choice(TOKENS), 10 + k) for k in range(2)] if seq == "again" else []
+        hist = lambda hs: [[items_of_dynamic(x, item), x.next_page_token, attrs_of_dynamic(x, attr_names[1:])] for x in hs]
+        for kind in kinds:
+            spec = {"service_module": info["module"], "client": info["service"] + ("AsyncClient" if kind == "grpc_asyncio" else "Client"),
+                    "transport": kind, "method": m["snake"],
+                    "request": {"cls": f"{info['pypkg']}.types:{short(m['req_fqn'])}", "b64": dyn.Dyn.b64(rq)},
+                    "call_kwargs": {"timeout": 40.0}, "mode": "items", "item_field": item["name"], "is_map": bool(item["map"]),
+                    "attr_names": attr_names + [item["name"]]}
+            mutation = {}
+            if seq == "mutate":
+                mutation = {"parent": "projects/other-project"}
+                if "filter" in has:
+                    mutation["filter"] = "changed-by-caller"
+                spec["mutate_after_create"] = mutation
+            else:
+                spec["list_again"] = True
+            msgs = h1 + h2
+            if kind == "rest":
+                spec["http_script"] = [{"status": 200, "body": json_format.MessageToJson(x)} for x in msgs]
+            else:
+                spec["grpc_script"] = {m["path"]: [{"messages": [dyn.Dyn.b64(x)]} for x in msgs]}
+            out.append({"spec": spec, "sequence": seq, "kind": kind, "m": m, "item": item, "attr_names": attr_names,
+                        "hist1": hist(h1), "hist2": hist(h2), "mutation": mutation, "sent_token": rq.page_token})
+    return out
+
+
+def eval_sequence(ctx, D, info, lib_i, req_b64, call, res, checks, pending):
+    m, item, kind, seq = call["m"], call["item"], call["kind"], call["sequence"]
+    h1, h2 = call["hist1"], call["hist2"]
+    case = {"kind": "drive-sequence", "request_b64": req_b64, "info": {k: info[k] for k in ("package", "pypkg", "service", "module", "transports")},
+            "rpc": m["name"], "call": call}
+    label = f"lib#{lib_i} {m['name']} {kind} sequence={seq} pages={[(len(p[0]), p[1]) for p in h1]}" + (f" then again {[(len(p[0]), p[1]) for p in h2]}" if h2 else "")
+    ctx.case({"lib": lib_i, "rpc": m["name"], "kind": kind, "sequence": seq, "hist1": h1, "hist2": h2, "sent_token": call["sent_token"]},
+             feature=[f"sequence-{seq}-{kind}", f"item-{m['item_kind']}"])
+    if not res.get("ok"):
+        pending.append((None, f"{label}: the sequence raised {res.get('error')}", case))
+        return
+    out = res["result"]
+    fqn = m["req_fqn"].lstrip(".")
+    original = D.parse(fqn, call["spec"]["request"]["b64"])
+    calls = [observed_http_call(h, []) for h in res["http_calls"]] if kind == "rest" else [observed_grpc_call(D, m, g) for g in res["grpc_calls"]]
+    elem = elem_fqn_of(item)
+    problems = []
+    # (c) the caller's request object is not modified by the library (only by the caller itself)
+    want = D.parse(fqn, call["spec"]["request"]["b64"])
+    for k, v in call["mutation"].items():
+        setattr(want, k, v)
+    for key in ("caller_request_after", "caller_request_after_again"):
+        if key in out:
+            got = D.parse(fqn, out[key])
+            if dyn.Dyn.canon(got) != dyn.Dyn.canon(want):
+                problems.append(f"the caller's request object was modified by the library ({key}): {dyn.Dyn.canon(got)} instead of {dyn.Dyn.canon(want)}")
+    # (a) follow-up requests = the ORIGINAL request with only page_token replaced
+    if len(calls) != len(h1) + len(h2):
+        problems.append(f"server saw {len(calls)} calls for {len(h1)} + {len(h2)} pages")
+    if kind != "rest":
+        orig = D.parse(fqn, call["spec"]["request"]["b64"])
+        orig.ClearField("page_token")
+        orig_fields = canon_item(dyn.Dyn.canon(orig))
+    else:
+        orig_fields = calls[0][1] if calls else ""
+    for k, c in enumerate(calls):
+        in_second = k >= len(h1)
+        j = k - len(h1) if in_second else k
+        hist = h2 if in_second else h1
+        exp_tok = original.page_token if j == 0 else hist[j - 1][1]
+        if c[0] != exp_tok:
+            problems.append(f"call {k} ({'second listing, ' if in_second else ''}page {j}) carried page_token {c[0]!r}, expected {exp_tok!r}")
+        if c[1] != orig_fields:
+            problems.append(f"call {k} does not carry the fields of the original request: {c[1]} vs {orig_fields}")
+    def decode(encs, hist):
+        got = [decode_enc(D, e, item, elem) for e in encs]
+        if item["map"]:
+            reg, pos = [], 0
+            for p in hist:
+                reg += sorted(got[pos:pos + len(p[0])])
+                pos += len(p[0])
+            got = reg + got[pos:]
+        return got
+    items1 = decode(out.get("items", []), h1)
+    if items1 != [x for p in h1 for x in p[0]]:
+        problems.append(f"yielded items {items1} != items of the pages in server order")
+    items2 = None
+    if h2:
+        items2 = decode((out.get("again") or {}).get("items", []), h2)
+        if items2 != [x for p in h2 for x in p[0]]:
+            problems.append(f"the second listing with the same request object yielded {items2}, the server's pages hold {[x for p in h2 for x in p[0]]}")
+    for p in problems[:3]:
+        pending.append((None, f"{label}: {p}", case))
+    # ---- model = implementation: each listing is Model.iterate from the ORIGINAL call ----
+    is_async = coq.b(kind == "grpc_asyncio")
+    opts = calls[0][2] if calls else ""
+    firstc = coq_call((original.page_token, orig_fields, opts))
+    def fin(snap):
+        fi = snap.get(item["name"], {})
+        fl = [decode_enc(D, e, item, elem) for e in fi.get("items", [])] if fi.get("kind") == "list" else ["<not a list>"]
+        fl = sorted(fl) if item["map"] else fl
+        tok = (snap.get("next_page_token") or {}).get("value")
+        return f"(Some {coq_page((fl, tok if isinstance(tok, str) else '<none>', attrs_of_snapshot(snap, call['attr_names'][1:])))})"
+    s1 = [coq_page(p) for p in h1]
+    checks.append((label + " [first listing]", f"items_run_matches {is_async} {firstc} {s1[0]} {coq.lst(s1[1:])} {coq.slist(items1)} "
+                   f"{coq.lst(coq_call(c) for c in calls[:len(h1)])} {fin(out['final'])}"))
+    if h2 and out.get("again"):
+        s2 = [coq_page(p) for p in h2]
+        checks.append((label + " [second listing]", f"items_run_matches {is_async} {firstc} {s2[0]} {coq.lst(s2[1:])} {coq.slist(items2)} "
+                       f"{coq.lst(coq_call(c) for c in calls[len(h1):])} {fin(out['again']['final'])}"))
+
+
 def run_libraries(ctx, n, seed_tag="C07-lib", histories=2):
     jobs = []
     for i in range(n):
@@ -1022,6 +1152,7 @@ def run_libraries(ctx, n, seed_tag="C07-lib", histories=2):
                 calls += build_drive_calls(r, D, info, m, kinds)
             if r.random() < 0.5:
                 calls += retry_scenario(r, D, info, m, kinds)
+            calls += sequence_scenarios(r, D, info, m, kinds)
         drives.append((i, req, info, root, D, calls))
     outs = gen.pmap(lambda d: gen.impl("pagedrive", {"root": d[3], "package": d[2]["pypkg"], "calls": [c["spec"] for c in d[5]]}) if d[5] else [], drives)
     for (i, req, info, root, D, calls), out in zip(drives, outs):
@@ -1039,6 +1170,9 @@ def run_libraries(ctx, n, seed_tag="C07-lib", histories=2):
                     got = sorted(got[:2]) + got[2:] if item["map"] else got
                     if got != c["expected"] or len(res["grpc_calls"]) != 3:
                         pending.append((None, f"lib#{i} {m['name']} {c['kind']}: with a retried follow-up request items={got} calls={len(res['grpc_calls'])}", case))
+                continue
+            if c.get("sequence"):
+                eval_sequence(ctx, D, info, i, b64, c, res, checks, pending)
                 continue
             eval_drive(ctx, D, info, i, b64, c, res, checks, pending)
             by_hist.setdefault((c["m"]["name"], json.dumps(c["hist"], sort_keys=True), c["mode"], c["spec"].get("break_after")), []).append(c)
@@ -1131,7 +1265,7 @@ def replay(ctx, rep):
             print("replay:", p[1])
         if not pending:
             print("replay: the implementation now agrees with the property's rule on this shape")
-    elif c.get("kind") in ("drive", "drive-retry"):
+    elif c.get("kind") in ("drive", "drive-retry", "drive-sequence"):
         req = apigen.req_from_b64(c["request_b64"])
         res, err = gen.run_generator(req)
         if res is None:
@@ -1148,9 +1282,13 @@ def replay(ctx, rep):
             if not out.get("ok"):
                 ctx.violation(rep.get("what", "retry option lost"), c)
             return
-        print("replay: scripted history:", json.dumps(c["call"]["hist"])[:1500])
+        print("replay: scripted history:", json.dumps(c["call"].get("hist") or [c["call"].get("hist1"), c["call"].get("hist2")])[:1500])
         checks, pending = [], []
-        eval_drive(ctx, D, c["info"], 0, c["request_b64"], dict(c["call"]), out, checks, pending)
+        if c["kind"] == "drive-sequence":
+            print("replay: caller's request after the sequence:", out.get("result", {}).get("caller_request_after"), out.get("result", {}).get("caller_request_after_again"))
+            eval_sequence(ctx, D, c["info"], 0, c["request_b64"], dict(c["call"]), out, checks, pending)
+        else:
+            eval_drive(ctx, D, c["info"], 0, c["request_b64"], dict(c["call"]), out, checks, pending)
         failing, errors, _ = coq.eval_checks("c07replay", IMPORTS, "", checks)
         ctx.oblige("replay: pager run = Model.iterate", not failing and not errors, "; ".join(failing + errors)[:800])
         pending = [(p[0] or rep.get("signature"), p[1], p[2]) for p in pending]
